@@ -3,6 +3,7 @@ package main
 import (
 	"fmt"
 	"os"
+	"runtime/pprof"
 )
 
 func main() {
@@ -16,6 +17,15 @@ func main() {
 		genUnicode(os.Stdout)
 	default:
 		if f, ok := commands[os.Args[1]]; ok {
+			if pf := os.Getenv("VERIF_PROF"); pf != "" { // CPU profile of the harness itself (development aid)
+				if w, err := os.Create(pf); err == nil {
+					pprof.StartCPUProfile(w)
+					rc := f(os.Args[2:])
+					pprof.StopCPUProfile()
+					w.Close()
+					os.Exit(rc)
+				}
+			}
 			os.Exit(f(os.Args[2:]))
 		}
 		fmt.Fprintln(os.Stderr, "unknown command", os.Args[1])
